@@ -521,6 +521,7 @@ func ruleEscSet(c *Ctx) {
 	sp := b.Codec
 	b.memberNameEscapes(l)
 	b.optionsHandedOn(l)
+	b.escapersWalkTheirInput(l)
 	b.nestedEncodings(l)
 	tables := map[*ssa.Global]*[256]bool{}
 	for _, n := range []string{"safeSet", "htmlSafeSet"} {
